@@ -2,6 +2,7 @@ package main
 
 import (
 	"context"
+	"encoding/json"
 	"flag"
 	"fmt"
 	"os"
@@ -202,7 +203,89 @@ func shortFile(f string) string {
 	return f
 }
 
-func cmdReplay(args []string)   { fmt.Println("not implemented"); os.Exit(2) }
+// cmdReplay re-runs the obligation(s) of the clause named in a replay file against /repo's current tree with a long budget:
+// exit 1 (and the solver's answer) if the clause still has an undischarged obligation, exit 0 if every obligation of it
+// discharges now. The replay is of the failed proof obligation; no failing input is available (see DESIGN A.1).
+func cmdReplay(args []string) {
+	fs := flag.NewFlagSet("replay", flag.ExitOnError)
+	repo := fs.String("repo", "/repo", "repository")
+	verif := fs.String("verif", "/verif", "verif dir")
+	fs.Parse(args)
+	if fs.NArg() < 1 {
+		fmt.Println("usage: govc replay <replay.json>")
+		os.Exit(2)
+	}
+	data, err := os.ReadFile(fs.Arg(0))
+	if err != nil {
+		fmt.Println("ERROR", err)
+		os.Exit(2)
+	}
+	var rec struct {
+		Clause     string `json:"clause"`
+		Obligation string `json:"obligation"`
+		Property   string `json:"property"`
+		Kind       string `json:"kind"`
+		Text       string `json:"text"`
+	}
+	if err := json.Unmarshal(data, &rec); err != nil {
+		fmt.Println("ERROR", err)
+		os.Exit(2)
+	}
+	fn := rec.Obligation
+	if i := strings.Index(fn, "/"); i >= 0 {
+		fn = fn[:i]
+	}
+	fmt.Printf("replaying clause %s (property %s)\n  %s\n", rec.Clause, rec.Property, rec.Text)
+	w, err := LoadWorld(*repo, *verif)
+	if err != nil {
+		fmt.Println("ERROR", err)
+		os.Exit(2)
+	}
+	fc, err := w.NewFnCtx(fn)
+	if err == nil {
+		err = fc.Generate()
+	}
+	if err != nil {
+		fmt.Printf("STILL FAILING: %s cannot be brought under its contract: %v\n", fn, err)
+		os.Exit(1)
+	}
+	hdr, err := w.scriptHeader(fc)
+	if err != nil {
+		fmt.Println("ERROR", err)
+		os.Exit(2)
+	}
+	dir, _ := os.MkdirTemp("", "govc-replay")
+	defer os.RemoveAll(dir)
+	n := 0
+	only := func(o *Obligation) bool {
+		if o.Kind == "canary" || clauseKey(o) != rec.Clause {
+			return false
+		}
+		n++
+		return true
+	}
+	graceS = 60
+	if err := w.Discharge(fc, hdr, dir, 60, only, make(chan struct{}, 16)); err != nil {
+		fmt.Println("ERROR", err)
+		os.Exit(2)
+	}
+	bad := 0
+	for _, o := range fc.obls {
+		if o.Kind != "canary" && clauseKey(o) == rec.Clause && o.Status != "unsat" {
+			bad++
+			fmt.Printf("  %s: %s (%s) at %s:%d %s\n", o.Name, o.Status, o.Solver, shortFile(o.Pos.Filename), o.Pos.Line, o.Via)
+		}
+	}
+	if n == 0 {
+		fmt.Println("STILL FAILING: the clause generates no obligation any more (the code it was attached to is gone)")
+		os.Exit(1)
+	}
+	if bad > 0 {
+		fmt.Printf("STILL FAILING: %d of %d obligations of the clause are not discharged (no failing input is derived)\n", bad, n)
+		os.Exit(1)
+	}
+	fmt.Printf("discharged now: all %d obligations of the clause\n", n)
+}
 func cmdSelftest(args []string) { fmt.Println("not implemented"); os.Exit(2) }
 
 // cmdProbe: consistency probe. The prelude, the spec definitions, the uninterpreted functions' axioms and the lemmas are given
